@@ -1,9 +1,11 @@
 /- C10 driver:
    `C10 run [[fam,sync,name],…] <ct:T|F> [event,…]` → `ok [snap,…]`   (state after start() and after each event)
    `C10 spec [[fam,sync,name],…] [event,…] [obs,…]` → `ok <n>`         (0 = the observed run satisfies the property)
+   sync ::= F (connect returns a pending future) | T (an already-failed future) | R (the connect call raises)
    (fam,name) = the socket address of the entry: entries may repeat an address; `addr` below = entry position
    event ::= [b,[[s,id],[f,id],…]] | [t] | [c]
    snap  ::= [[outcome,…],remaining,timerNone,timerLive,ctimerLive,[[addr,fut,closed,closes],…],[inSet…]]
+             (one [addr,fut,closed,closes] per connect CALL, a call that raised included: E, closed, 0 closes)
    obs   ::= [[outcome,…],timerLive,ctimerLive,[[addr,fut,closed],…]]
    outcome ::= [ok,addr,stream] | [timeout] | [last,stream] | [connfailed]      fut ::= P | K | E
 -/
@@ -16,9 +18,10 @@ def decAddrs (v : V) : Option (List Addr) := do
   let l ← v.list?
   let ps ← l.mapM (fun x => do
     match (← x.list?) with
-    | [f, s, n] => pure ((← f.nat?), (← n.nat?), (← s.bool?))
+    | [f, .atom "R", n] => pure ((← f.nat?), (← n.nat?), 2)
+    | [f, s, n] => pure ((← f.nat?), (← n.nat?), if (← s.bool?) then 1 else 0)
     | _ => none)
-  pure (mkNamed ps)
+  pure (mkNamedR ps)
 
 def decCompl (v : V) : Option Compl := do
   match (← v.list?) with
